@@ -121,6 +121,14 @@ def BBlock.addEntry (cur : BBlock) (key : Bytes) (v : VS) : Option BBlock :=
       baseKey := base
       entryOffsets := cur.entryOffsets ++ [u32 cur.data.length] }
 
+/-- Adding a run of entries to one block (no `finishBlock` in between). -/
+def BBlock.addEntries (cur : BBlock) : List Entry → Option BBlock
+  | [] => some cur
+  | e :: es =>
+    match cur.addEntry e.key e.vs with
+    | none => none
+    | some c => BBlock.addEntries c es
+
 /-- `shouldFinishBlock` (`uint32` arithmetic as coded). `none` = an overflow assert fails. -/
 def shouldFinishBlock (blockSize : Nat) (encrypt : Bool) (cur : BBlock) (key : Bytes) (v : VS) :
     Option Bool :=
@@ -249,6 +257,14 @@ def BlockIter.seek (it : BlockIter) (key : Bytes) (current : Bool) : Option Bloc
         (compareKeysP it.key key).bind fun o => some (o != .lt, it))
     0 it.entryOffsets.length it).bind fun (found, it) =>
   it.setIdx found
+
+/-- An arbitrary sequence of `setIdx` probes (valid or out-of-range indices). -/
+def BlockIter.probeAll (it : BlockIter) : List Int → Option BlockIter
+  | [] => some it
+  | p :: ps =>
+    match it.setIdx p with
+    | none => none
+    | some it' => BlockIter.probeAll it' ps
 
 def BlockIter.seekToFirst (it : BlockIter) : Option BlockIter := it.setIdx 0
 def BlockIter.seekToLast (it : BlockIter) : Option BlockIter := it.setIdx (it.entryOffsets.length - 1)
